@@ -41,11 +41,19 @@ class SArr(ZArr):
     """matrix with a *support* predicate: nz(i, j) over-approximates `entry (i, j) may be non-zero`.
     Used for the block-sparsity clauses; values of the entries are not modelled here."""
     is_sarr = True
-    def __init__(self, shape, kind, nz, name=None):
+    def __init__(self, shape, kind, nz, name=None, val=None, origin=None):
         ZArr.__init__(self, shape, kind, None, name)
         self.nz = nz
+        self.val = val            # entry values (only with TRACK_VALUES): (i, j) -> z3 Real term, an element of a commutative ring
+        self.origin = origin      # how the value arose: ('zeros',) ('havoc',) ('input',) ('lapack', info) ('view', base, f0, f1, kinds) ('store', base, region, v)
     def havoc(self):
-        return SArr(self.shape, self.kind, z3.Function(f'hnz{next(_n)}', I, I, z3.BoolSort()))
+        return SArr(self.shape, self.kind, z3.Function(f'hnz{next(_n)}', I, I, z3.BoolSort()),
+                    val=fresh_val('hv') if TRACK_VALUES[0] else None, origin=('havoc',))
+
+TRACK_VALUES = [False]
+
+def fresh_val(name='val'):
+    return z3.Function(f'{name}{next(_n)}', I, I, z3.RealSort())
 
 def fresh_nz(name='nz'):
     return z3.Function(f'{name}{next(_n)}', I, I, z3.BoolSort())
@@ -147,6 +155,12 @@ def np_qr(ex, st, node, args, kw):
     k = z3.If(p <= r, p, r)
     from .libz import kind_join, kind_of
     kd = kind_join(kind_of(a), 'real')
+    if TRACK_VALUES[0]:
+        info = dict(B=a, p=p, r=r, k=k)
+        Qs = SArr((p, k), kd, fresh_nz('nzQs'), val=fresh_val('Qs'), origin=('lapack', info))
+        Rs = SArr((k, r), kd, fresh_nz('nzRs'), val=fresh_val('Rs'), origin=('lapack', info))
+        info.update(Q=Qs, R=Rs)
+        return (Qs, Rs)
     return (SArr((p, k), kd, fresh_nz('nzQs')), SArr((k, r), kd, fresh_nz('nzRs')))
 
 def np_svd(ex, st, node, args, kw):
@@ -195,18 +209,19 @@ def q_getitem(ex, st, node, base, key):
     if getattr(base, 'is_sarr', False) and isinstance(key, tuple) and len(key) == 2:
         plain = q_getitem(ex, st, node, ZArr(base.shape, base.kind), key)        # obligations + result shape
         if getattr(plain, 'is_zarr', False) and plain.ndim == 2:
-            maps = []
+            maps = []; how = []
             for ax, k in enumerate(key):
                 if isinstance(k, IArr):
-                    maps.append(lambda t, k=k: k.a(t))
+                    maps.append(lambda t, k=k: k.a(t)); how.append(('gather', k))
                 elif isinstance(k, slice):
                     _, lo, _ = slice_len(k, base.shape[ax])
-                    maps.append(lambda t, lo=lo: t + lo)
+                    maps.append(lambda t, lo=lo: t + lo); how.append(('shift', lo))
                 else:
                     maps = None; break
             if maps:
                 f0, f1 = maps
-                return SArr(plain.shape, plain.kind, lambda i, j, b=base, f0=f0, f1=f1: b.nz(f0(i), f1(j)))
+                val = (lambda i, j, b=base, f0=f0, f1=f1: b.val(f0(i), f1(j))) if getattr(base, 'val', None) is not None else None
+                return SArr(plain.shape, plain.kind, lambda i, j, b=base, f0=f0, f1=f1: b.nz(f0(i), f1(j)), val=val, origin=('view', base, f0, f1, how))
         return plain
     if getattr(base, 'is_zarr', False):
         if not isinstance(key, tuple):
@@ -249,7 +264,17 @@ def q_setitem(ex, st, node, base, key, v):
         if isinstance(v, int) and v == 0:
             vz = lambda i, j: z3.BoolVal(False)
         c0, c1 = conds; o0, o1 = offs
-        return SArr(base.shape, base.kind, lambda i, j, b=base: z3.If(z3.And(c0(i), c1(j)), vz(i - o0, j - o1), b.nz(i, j)))
+        val = None
+        if getattr(base, 'val', None) is not None:
+            if getattr(v, 'is_sarr', False) and v.val is not None:
+                vv = v.val
+            elif isinstance(v, int):
+                vv = lambda i, j, v=v: z3.RealVal(v)
+            else:
+                vv = fresh_val('unk')
+            val = lambda i, j, b=base, vv=vv: z3.If(z3.And(c0(i), c1(j)), vv(i - o0, j - o1), b.val(i, j))
+        return SArr(base.shape, base.kind, lambda i, j, b=base: z3.If(z3.And(c0(i), c1(j)), vz(i - o0, j - o1), b.nz(i, j)),
+                    val=val, origin=('store', base, (c0, c1, o0, o1, key), v))
     if getattr(base, 'is_zarr', False) and is_z(v) and not isinstance(key, tuple) and isinstance(key, slice):
         n = zint(base.shape[0])
         oblige(ex, st, node, 'index', f'{ast.unparse(node)[:50]}: slice within bounds', z3.And(zint(key.start) >= 0, zint(key.stop) <= n, zint(key.start) <= zint(key.stop)))
@@ -301,7 +326,7 @@ def np_zeros_q(ex, st, node, args, kw):
         return MArr(lambda c: z3.IntVal(0), z.shape[0], {})  # integer charge array: all entries zero
     z = np_zeros(ex, st, node, args[:1], {'dtype': dt} if dt is not None else {})
     if getattr(z, 'is_zarr', False) and z.ndim == 2:
-        return SArr(z.shape, z.kind, lambda i, j: z3.BoolVal(False))
+        return SArr(z.shape, z.kind, lambda i, j: z3.BoolVal(False), val=(lambda i, j: z3.RealVal(0)) if TRACK_VALUES[0] else None, origin=('zeros',))
     return z
 
 class IArrDtype:
